@@ -7,7 +7,7 @@ from . import common
 from .common import viol
 
 ID = "C10"
-RUNS = {"quick": 1600, "thorough": 120000}
+RUNS = {"quick": 1600, "thorough": 60000}
 REAL = common.REAL
 SIMULATED = common.SIMULATED
 ASSUMPTIONS = [
